@@ -302,7 +302,11 @@ func c19(r *ev.Reporter, _ []string) {
 		for a := 0; a < n; a++ {
 			for b := 0; b < n; b++ {
 				if a != b {
-					pair[[2]int{a, b}] = c.Combine(single[a], single[b])
+					sab, err := c.Auths[0].Combine(single[a], single[b])
+					if err != nil { // reported by combineCheck above ("Combine rejects disjoint")
+						continue
+					}
+					pair[[2]int{a, b}] = sab
 				}
 			}
 		}
